@@ -77,25 +77,37 @@ def run (st : State) : List Label → Option State
     | none => none
     | some st' => run st' ls
 
-/-- The result `Next` returns in the step `st --l-->` (harness tokens `v<value> end ctx`), if it returns. -/
-def completion (st : State) : Label → Option String
-  | .put v => if st.cap = 0 ∧ st.buf.length ≥ st.cap then
-      (match chanNextBodies.lookup (.recv chData) with
-       | some ["bind item,ok:=", "if !ok {", "return zero, End", "}", "return item, nil"] => some s!"v{v}"
-       | _ => some "?")
-    else none
+/-- Canonical result of `Next` (harness tokens `v<value> end ctx`). -/
+inductive Res where
+  | val (v : Int)
+  | fin
+  | ctx
+  | unknown
+  deriving DecidableEq, Repr
+
+def Res.token : Res → String
+  | .val v => s!"v{v}" | .fin => "end" | .ctx => "ctx" | .unknown => "?"
+
+/-- What the data arm of `chanStream.Next` returns, read off its regenerated body: `End` when the
+receive reports `!ok` (channel closed and drained), the received item otherwise. A body this model does
+not know yields `unknown`, which no observation matches. -/
+def dataResult (item : Option Int) : Res :=
+  match chanNextBodies.lookup (.recv chData) with
+  | some ["bind item,ok:=", "if !ok {", "return zero, End", "}", "return item, nil"] =>
+    (match item with
+     | some v => .val v   -- ok
+     | none => .fin)      -- !ok
+  | _ => .unknown
+
+/-- The result `Next` returns in the step `st --l-->`, if it returns. -/
+def completion (st : State) : Label → Option Res
+  | .put v => if st.cap = 0 ∧ st.buf.length ≥ st.cap then some (dataResult (some v)) else none
   | .arm (.recv ch) =>
-    if ch == chData then
-      match chanNextBodies.lookup (.recv chData) with
-      | some ["bind item,ok:=", "if !ok {", "return zero, End", "}", "return item, nil"] =>
-        (match st.buf with
-         | v :: _ => some s!"v{v}"
-         | [] => some "end")
-      | _ => some "?"
+    if ch == chData then some (dataResult st.buf.head?)
     else
       match chanNextBodies.lookup (.recv ch) with
-      | some ["return zero, ctx.Err()"] => some "ctx"
-      | _ => some "?"
+      | some ["return zero, ctx.Err()"] => some .ctx
+      | _ => some .unknown
   | _ => none
 
 def tablesKnown : Bool :=
